@@ -628,16 +628,13 @@ func (e *Extractor) showTextArray(arr core.Array) {
 			hScale := e.gs.Text.HorizontalScaling / 100.0
 			adjustment := -float64(v) * e.gs.GetFontSize() * hScale / 1000.0
 
-			// Update text matrix
-			tm := e.gs.GetTextMatrix()
-			tm[4] += adjustment
-			e.gs.SetTextMatrix(tm)
+			// Move the text matrix only: the line matrix must keep the line's start,
+			// which T*, ' and " (and Td) are relative to
+			e.gs.Text.TextMatrix[4] += adjustment
 		case core.Real:
 			hScale := e.gs.Text.HorizontalScaling / 100.0
 			adjustment := -float64(v) * e.gs.GetFontSize() * hScale / 1000.0
-			tm := e.gs.GetTextMatrix()
-			tm[4] += adjustment
-			e.gs.SetTextMatrix(tm)
+			e.gs.Text.TextMatrix[4] += adjustment
 		}
 	}
 }
